@@ -24,6 +24,7 @@ type SpecCtx struct {
 	UseLocalsInOld bool
 	ParamsFirst bool // postconditions: parameter names mean entry values; other names fall back to locals
 	LoopSnap map[string]string // heap at the entry of the loop whose invariant is being evaluated
+	InDefine  bool // inside the body of a defining equation (no further unfolding)
 	AtCallSite bool // evaluating a callee's contract in a caller: trace functions speak about the callee's own path
 	Frame    *Frame
 	Bound    map[string]*SV
@@ -511,6 +512,7 @@ var ghostHeaps = map[string]string{
 	"consumed": "Int", // bytes taken from an io.Reader
 	"atype":    "Int", // type id of a (mutable) TApplicationException
 	"drained":  "Int", // number of Drain calls on a NATS subscription
+	"errflag":  "Bool", // a ValidationLogger has logged at least one error
 }
 
 func (e *Engine) evalCall(s *State, c *SpecCtx, n *ast.CallExpr) *SV {
@@ -536,6 +538,17 @@ func (e *Engine) evalCall(s *State, c *SpecCtx, n *ast.CallExpr) *SV {
 	case "old":
 		c2 := *c
 		c2.InOld = true
+		return e.eval(s, &c2, n.Args[0])
+	case "iterstart":
+		// value of the expression in the heap as it was at the start of the current loop iteration
+		if s.IterHeap == nil {
+			e.unsupportedf("iterstart() outside a loop")
+		}
+		c2 := *c
+		c2.InOld = true
+		c2.OldHeap = s.IterHeap
+		c2.OldEpoch = true
+		c2.UseLocalsInOld = true
 		return e.eval(s, &c2, n.Args[0])
 	case "loopentry":
 		// value of the expression in the heap as it was when the loop was entered (locals: current)
@@ -598,6 +611,15 @@ func (e *Engine) evalCall(s *State, c *SpecCtx, n *ast.CallExpr) *SV {
 		return &SV{V: &Val{L: []string{sl.V.L[0], app("+", sl.V.L[1], lo.V.L[0]), app("-", sl.V.L[2], lo.V.L[0]), app("-", sl.V.L[3], lo.V.L[0])}}, T: sl.T}
 	case "off":
 		return svInt(arg(0).V.L[1])
+	case "ptr":
+		// ptr(x, "pkg.Type"): read the reference x as a *pkg.Type
+		lit := n.Args[1].(*ast.BasicLit)
+		name, _ := strconv.Unquote(lit.Value)
+		t := e.structTypeByKey(name)
+		if t == nil {
+			e.unsupportedf("ptr: unknown type %s", name)
+		}
+		return &SV{V: &Val{L: []string{arg(0).V.L[0]}}, T: types.NewPointer(t), Sort: "Int"}
 	case "cast":
 		// cast(x, "pkg.Type"): the *pkg.Type held by interface value x
 		lit := n.Args[1].(*ast.BasicLit)
@@ -952,6 +974,20 @@ func (e *Engine) evalCall(s *State, c *SpecCtx, n *ast.CallExpr) *SV {
 	}
 	if len(args) == 0 {
 		return &SV{V: &Val{L: []string{sym}}, Sort: res}
+	}
+	if df, ok := e.C.Defines[fname]; ok && !c.InDefine && len(df.Params) == len(n.Args) {
+		// defining equation, unfolded once at this use (nested uses inside the body stay folded)
+		c2 := *c
+		c2.InDefine = true
+		c2.Bound = map[string]*SV{}
+		for k, v := range c.Bound {
+			c2.Bound[k] = v
+		}
+		for i, pn := range df.Params {
+			c2.Bound[pn] = arg(i)
+		}
+		body := e.eval(s, &c2, df.Body.Expr)
+		s.assume(eq(app(sym, args...), body.V.L[0]))
 	}
 	return &SV{V: &Val{L: []string{app(sym, args...)}}, Sort: res, T: map[string]types.Type{"Int": types.Typ[types.Int], "Bool": types.Typ[types.Bool], "Str": types.Typ[types.String]}[res]}
 }
